@@ -132,7 +132,7 @@ def generate(R, tier, focus):
                         'df_cols': R.choice((0, 0, R.randint(1, 10 ** 6)))})
         else:
             ops.append({'op': 'OVERWRITE', 'first': R.randrange(len(cats)), 'second': R.randrange(len(cats)),
-                        'fmt': R.choice(('ascii', 'json'))})
+                        'fmt': R.choice(('ascii', 'json', 'ascii_append')), 'header': R.random() < 0.7})
     probe = None
     if R.random() < 0.15:
         probe = {'kind': R.choice(('enospc', 'torn_file', 'torn_file')), 'fmt': R.choice(('ascii', 'json')),
@@ -168,7 +168,8 @@ def generate18(R, tier):
         twin18 = None
         # lattices whose anchor / spacing are not short decimals ("for all Cartesian lattices")
         dh = R.choice((1.0 / 3.0, 0.1, 0.3, 1.0 / 7.0, 0.25, 1.0))
-        ax = R.choice((1.0 / 7.0, -2.0 / 3.0, 0.1 + 1.0 / 3.0, 100.0 / 7.0, -0.7, 33.3))
+        # (incl. lattices in the 0..360 longitude convention, across the date line)
+        ax = R.choice((1.0 / 7.0, -2.0 / 3.0, 0.1 + 1.0 / 3.0, 100.0 / 7.0, -0.7, 33.3, 178.0, 200.5, 355.25))
         ay = R.choice((1.0 / 7.0, -2.0 / 3.0, 0.2 + 1.0 / 3.0, -100.0 / 7.0, 0.3, -44.4))
         nx, ny = R.randint(1, 4), R.randint(1, 3)
         cells = [[ax + i * dh, ay + j * dh] for i in range(nx) for j in range(ny)]
@@ -353,10 +354,16 @@ def _execute14(scn, ctx, store, clock):
             if a not in live or b not in live:
                 continue
             n_files += 1
-            path = store.path('over_%d.%s' % (n_files, 'csv' if op['fmt'] == 'ascii' else 'json'))
+            path = store.path('over_%d.%s' % (n_files, 'json' if op['fmt'] == 'json' else 'csv'))
+            appending = op['fmt'] == 'ascii_append'
             for k_, src in enumerate((a, b)):
                 c = make(src)
-                r = call(c.write_ascii, path) if op['fmt'] == 'ascii' else call(c.write_json, path)
+                if appending:
+                    # append mode: the second catalog is added to the file the first one left behind
+                    r = call(c.write_ascii, path, write_header=op.get('header', True)) if k_ == 0 else \
+                        call(c.write_ascii, path, write_header=False, append=True)
+                else:
+                    r = call(c.write_ascii, path) if op['fmt'] == 'ascii' else call(c.write_json, path)
                 if r[0] != 'ok':
                     ctx.violate('C14', 'exception', 'OVERWRITE:write:%s:%s' % (op['fmt'], r[1]), {'op': oi, 'msg': r[2]})
                     return
@@ -371,7 +378,8 @@ def _execute14(scn, ctx, store, clock):
                     op['fmt'], r[1], ':empty' if not scn['cats'][b]['events'] else ''), {'op': oi, 'msg': r[2]})
                 continue
             ctx.count('overwrite_checked')
-            _compare_rows(ctx, rows_of(r[1]), model_rows(scn['cats'][b]['events']), 'OVERWRITE:' + op['fmt'], oi)
+            _compare_rows(ctx, rows_of(r[1]), (model_rows(scn['cats'][a]['events']) if appending else []) +
+                          model_rows(scn['cats'][b]['events']), 'OVERWRITE:' + op['fmt'], oi)
             continue
         # ------------------------------------------------------------------ ROUNDTRIP (chain = generations)
         ci = op['cat']
@@ -521,8 +529,15 @@ def _same_region(ctx, a, b, region_lit, op_seed=0):
     P = random.Random(op_seed)
     for i in range(12):
         ci = P.randrange(gen.n_cells(region_lit))
-        if P.random() < 0.7:
+        x_ = P.random()
+        if x_ < 0.55:
             lon, lat = gen.point_in_cell(P, region_lit, ci)
+        elif x_ < 0.75 and region_lit['kind'] == 'cart':
+            # just inside a cell next to one of its edges (1e-4 .. 1e-8 of a cell: far above the binning tolerance)
+            o_, dh_ = region_lit['origins'][ci], region_lit['dh']
+            eps_ = dh_ * 10.0 ** -P.randint(4, 8)
+            lon = o_[0] + dh_ - eps_ if P.random() < 0.5 else o_[0] + eps_
+            lat = o_[1] + dh_ - eps_ if P.random() < 0.5 else o_[1] + dh_ * 0.5
         else:
             lon, lat = gen.point_outside(P, region_lit)
         ra = call(a.get_index_of, numpy.array([lon]), numpy.array([lat]))
@@ -759,8 +774,13 @@ def _execute18(scn, ctx, store, clock):
             lon, lat = o[0], o[1]                       # lower corner
         elif x < 0.7:
             lon, lat = o[0] + dh * 0.5, o[1]
-        elif x < 0.8:
+        elif x < 0.74:
             lon, lat = float(numpy.nextafter(o[0] + dh, -numpy.inf)), o[1] + dh * 0.5
+        elif x < 0.8:
+            # just inside the cell next to an edge, at distances far above the binning tolerance (1e-4 .. 1e-8 of a cell)
+            eps_ = dh * 10.0 ** -P.randint(4, 8)
+            lon = o[0] + dh - eps_ if P.random() < 0.5 else o[0] + eps_
+            lat = o[1] + dh - eps_ if P.random() < 0.5 else o[1] + dh * 0.5
         elif x < 0.88:
             lon, lat = o[0] + dh, o[1] + dh                 # upper corner = a neighbour's lower corner
         elif x < 0.92:
